@@ -70,7 +70,14 @@ def _gate(run, F, X, pc, vk, spec):
     gen = spec["generic"][vk]
     version = spec["version"][vk]
     found = set()
-    for r in [n for n in A.own_nodes(gate) if isinstance(n, ast.Return)]:
+    from sa.decide import Walker
+    from sa.query import make_facts
+    # one entry per path to a return of the gate: the atoms of the path's branch conditions (so that `a or (b and c)` guarding one return and
+    # separate guard clauses give the same entries), the conditions that are not atoms, the verdict's code
+    for lf in Walker(A, gate, pc, lambda e: None, max_leaves=400, max_steps=20000).walk(g.entry):
+        if lf.kind != "return":
+            continue
+        r = lf.node.ast
         v = r.value
         code = None
         if isinstance(v, ast.Call):
@@ -79,19 +86,28 @@ def _gate(run, F, X, pc, vk, spec):
                 rets = [x for x in A.own_nodes(cs[0]) if isinstance(x, ast.Return)]
                 if len(rets) == 1 and isinstance(rets[0].value, ast.Dict) and len(rets[0].value.values) == 1:
                     ok, code = try_fold(P, rets[0].value.values[0], cs[0], pc)
-        for rn in g.nodes_of(r):
-            atoms = set()
-            raw = []
-            for f in F.local(gate, pc, rn):
+        atoms = set()
+        raw = []
+        for k_, truth in lf.pc.items():
+            if not k_.startswith("?"):
+                continue
+            try:
+                ce = ast.parse(k_[1:], mode="eval").body
+            except SyntaxError:
+                raw.append(k_[1:])
+                continue
+            for f in make_facts("T" if truth else "F", ce, gate, None):
                 a = X.atoms_of_fact(f, env)
                 if a:
                     atoms |= set(a)
-                elif f.kind == "truthy" and isinstance(f.expr, ast.Name) and f.node is not None \
-                        and F._through_flag("T" if f.pol else "F", f.expr, gate, pc, f.node):
-                    continue        # a boolean flag: the facts of its defining expression are in the list already
                 else:
                     raw.append(f.text())
-            found.add((frozenset(a.text() for a in atoms), tuple(sorted(raw)), code, norm(v)[:40]))
+        found.add((frozenset(a.text() for a in atoms), tuple(sorted(raw)), code, norm(v)[:40] if v is not None else "None", id(r)))
+    # what holds on EVERY path to a given return (its dominating conditions): the part of a path's conditions that is a condition of the verdict
+    must_atoms, must_raw = {}, {}
+    for x in found:
+        must_atoms[x[4]] = must_atoms[x[4]] & set(x[0]) if x[4] in must_atoms else set(x[0])
+        must_raw[x[4]] = must_raw[x[4]] & set(x[1]) if x[4] in must_raw else set(x[1])
     # expected pairs, minimal guard that must be present
     expect = [
         ("nottype(<request>: dict)", None, gen["format"], "not a JSON object"),
@@ -113,7 +129,7 @@ def _gate(run, F, X, pc, vk, spec):
                           f"{' and ' + a2 if a2 else ''} ({what})")
         # ... and by nothing more: a further condition on that verdict exempts some requests from it
         for x in hit:
-            extra = sorted(set(x[0]) - allowed[what]) + [r_ for r_ in x[1]]
+            extra = sorted(must_atoms[x[4]] - allowed[what]) + sorted(must_raw[x[4]])
             run.check("R1", not extra, f"{pc.name}: {what} -> {code} under no further condition", key=f"{pc.name}|gate|{what}|extra-condition",
                       where=gate.loc(), message=f"[{pc.name}] the `{what}` verdict ({code}) is additionally conditioned on {extra}: requests failing that extra "
                       "condition escape the verdict the specification prescribes for them")
